@@ -98,6 +98,17 @@ Theorem C08_free_params :
        In kv (free_params sig bound) <-> In kv sig /\ ~ In (fst kv) bound.
 Proof. exact (@free_params_spec). Qed.
 
+(* DependenceFunction.__init__ (one functools.partial per keyword, in keyword order): every keyword that names a parameter of the user function is bound to ITS OWN dependence function, keywords that name no parameter bind nothing, earlier bindings are kept -- so a function chained on several inner functions evaluates each of them (at the same conditioning value, by C08_depcall_default) *)
+Theorem C08_chained_binding :
+  forall (F : Type) (sig : list string) (kwargs acc : list (string * F)) (k : string),
+       NoDup (map fst kwargs) ->
+       lookup k (dep_bind sig kwargs acc) =
+       match lookup k kwargs with
+       | Some d => if existsb (String.eqb k) sig then Some d else lookup k acc
+       | None => lookup k acc
+       end.
+Proof. exact (@dep_bind_spec). Qed.
+
 (* composition with the generated override law, Weibull template (the other families: C05_*_override) *)
 Theorem C08_W_template_with_theta :
   forall (s : WeibullDistribution) (a b g : option R),
@@ -122,4 +133,5 @@ Print Assumptions C08_depcall_default.
 Print Assumptions C08_depcall_default_is_explicit.
 Print Assumptions C08_depcall_arity.
 Print Assumptions C08_free_params.
+Print Assumptions C08_chained_binding.
 Print Assumptions C08_W_template_with_theta.
